@@ -362,7 +362,10 @@ class CursorAwareWindow(BaseWindow, ContextManager["CursorAwareWindow"]):
                     if self.extra_bytes_callback is not None:
                         self.extra_bytes_callback(
                             # TODO how do we know that this works?
-                            extra.encode(cast(TextIO, in_stream).encoding)
+                            extra.encode(
+                                cast(TextIO, in_stream).encoding,
+                                getattr(in_stream, "errors", None) or "strict",
+                            )
                         )
                     else:
                         raise ValueError(
